@@ -19,7 +19,7 @@ MODES = {
 LIBS = ['-lgmpxx', '-lgmp', '-lpthread']
 SAN_ENV = {
     'ASAN_OPTIONS': 'detect_leaks=0:halt_on_error=1:abort_on_error=1:allocator_may_return_null=1:detect_stack_use_after_return=1',
-    'UBSAN_OPTIONS': 'print_stacktrace=1:halt_on_error=1',
+    'UBSAN_OPTIONS': 'print_stacktrace=1:halt_on_error=1:abort_on_error=1',
 }
 
 
@@ -221,7 +221,7 @@ def run_check(cid, tier, cfg):
             continue
         tot['evaluations'] += data['evaluations']
         tot['duplicates'] += data['duplicates']
-        gk = (str(u['src']), tuple(u['args']))
+        gk = (str(u['src']), tuple(u['args']), tuple(u['flags']))
         per_unit.setdefault(gk, {}).setdefault(u['name'], 0)
         per_unit[gk][u['name']] += data['nontrivial'] - data['duplicates']
         tot['total_cases'][u['name']] = data['total_cases']
@@ -247,6 +247,11 @@ def run_check(cid, tier, cfg):
     for u, log in soft:
         viols.append(dict(unit=u['name'], idx=-1, key='compile', desc='unit %s does not compile' % u['name'], msg=log[-3000:]))
 
+    if 'viol_filter' in cfg:
+        dropped = [v for v in viols if not cfg['viol_filter'](v)]
+        viols = [v for v in viols if cfg['viol_filter'](v)]
+        if dropped:
+            counters['violations_of_other_properties_ignored'] = len(dropped)
     # post-processing hook (e.g. cross-variant comparisons)
     if 'post' in cfg:
         cfg['post'](tier, units, jobs, viols, counters, classes)
